@@ -46,7 +46,7 @@ Proof.
   - intros _ a b. unfold res_true, FixedKernels.dunder_lt, operand_value, bind. destruct (a <? b); reflexivity.
   - intros _ a b. unfold res_true, FixedKernels.dunder_ge, operand_value, bind. destruct (b <=? a); reflexivity.
   - intros _ a b. unfold res_true, FixedKernels.dunder_eq, operand_value, bind. destruct (a =? b); reflexivity.
-Qed.
+Defined.
 
 Lemma zlike_guarded p g d s : 0 <= p -> 0 <= g -> zlike (Guarded p g d s) (10 ^ (p + g)).
 Proof.
@@ -80,4 +80,4 @@ Proof.
     assert (G0: g = 0) by (destruct (g =? 0) eqn:E; [lia|discriminate]). subst g.
     destruct (rel_of_cmp st a b) as (E1 & _). rewrite E1, res_true_ok.
     change (g_geps st) with 1. lia.
-Qed.
+Defined.
